@@ -3,6 +3,7 @@ import Logrange.Model.WireRT
 import Logrange.Model.JournalW
 import Logrange.Model.WriteLoopM
 import Logrange.Model.JIterObs
+import Logrange.Model.WriteReadE2E
 /-! Model driver for C01 (acknowledged writes are read back intact, once, in order). Requests
 (byte strings hex, `-` = empty; timestamps as the decimal uint64 image of the int64):
 
@@ -18,6 +19,10 @@ import Logrange.Model.JIterObs
 * `w.writef <part> <cancel c|nonew 0|none 0> <n> (<ts> <msg> <fields>)*` → the same under a fault pattern (`serviceWriteF`)
 * `w.restart <part> <durable>`                      → `ok`: graceful stop and restart (`gracefulRestart`)
 * `w.read <part> <maxRecordSize>`                 → `ok <n> (<ts>/<msg>/<fields>)*` | `toosmall <k>` (the k-th record, 0-based, exceeds the read buffer)
+      evaluated through the COMPOSED read path of the end-to-end theorem (`Model/WriteReadE2E.lean`): C03's journal iterator model
+      drained from the head over the labelled view of the journal, fetch + unmarshal, the query loop with its fields cache
+      (identity printer), result pages of 3 events encoded and decoded — for journals with records x chunks <= 60000; larger ones
+      are answered by the flat form `readBack` (same answers: `E2E.iterLabels_eq`, `fetchDecode_all`)
 * `w.layout <part>`                               → `<count of chunk 1> <count of chunk 2> …`
 * `tail.probe <old> <fuel> <polls> <count script…>` → `jobs=<probe> tail=<probe>`: the library journal iterator's observation model and
       the tail model on the scripted two-chunk journal; probe = `eof=<0|1>,pos=<cid>:<idx>,got=<indices joined by .|->,grew=<0|1>`
@@ -84,6 +89,20 @@ def readBack (j : Journal) (maxRec : Nat) : String :=
     let evs := recs.map (fun r => match Event.unmarshal [] r with | .ok (_, e) => some e | _ => none)
     if evs.any (·.isNone) then "undecodable" else "ok " ++ showEvs (evs.filterMap id)
 
+/-- the same read through the composed model of the end-to-end theorem -/
+def readBackE2E (j : Journal) (maxRec : Nat) : String :=
+  let store := readAll j
+  let labels := E2E.iterLabels j
+  match labels.findIdx? (fun l => match store[l]? with | some r => r.length > maxRec | none => true) with
+  | some k => s!"toosmall {k}"
+  | none =>
+    match E2E.fetchDecode maxRec store labels with
+    | none => "undecodable"
+    | some es =>
+      match E2E.clientRead 3 [] id (E2E.queryLoop id [] {} es) with
+      | some wes => "ok " ++ showEvs (wes.map (fun w => ⟨w.ts, w.msg, w.fields⟩))
+      | none => "page-codec-failed"
+
 def showProbe (p : JIterObs.Probe) : String :=
   let b (x : Bool) := if x then "1" else "0"
   let got := if p.delivered.isEmpty then "-" else ".".intercalate (p.delivered.map toString)
@@ -149,7 +168,11 @@ def step (s : St) (toks : List String) : St × String :=
   | ["w.restart", p, durable] =>
     -- graceful stop + restart: `durable` records were confirmed when the stop began
     (s.set p.toNat! (gracefulRestart (s.get p.toNat!) durable.toNat!), "ok")
-  | ["w.read", p, mr] => (s, readBack (s.get p.toNat!) mr.toNat!)
+  | ["w.read", p, mr] =>
+    -- the iterator model looks a chunk up by id at every step (cost: records x chunks): beyond a budget the flat form answers
+    let j := s.get p.toNat!
+    if (readAll j).length * j.length ≤ 60000 then (s, readBackE2E j mr.toNat!) else (s, readBack j mr.toNat!)
+  | ["w.readflat", p, mr] => (s, readBack (s.get p.toNat!) mr.toNat!)
   | ["w.layout", p] => (s, " ".intercalate ((s.get p.toNat!).map (fun c => toString c.recs.length)))
   | _ => (s, "bad-op")
 
